@@ -17,6 +17,7 @@ from mc.model import MIS, SEL, Schema, tabulate
 from mc.partition import partition_oracles
 
 ID = "C13"
+CHUNK = 100
 RULE = ("states = (multiset of <=N respondent events, each event = m identical respondents with m in "
         "{1,3} on the amplified schemas, config: subtotal column/row, alpha pair, only-larger flag, column "
         "order / hide); non-trivial = some pair of columns in some row has a finite non-zero t; distinct "
